@@ -9,7 +9,9 @@ STUBS = ["base.c", "alloc_direct.c", "hash_model.c"]
 FPR = {
     "hm_hash.function_pointer_call.1": ["hash_fn"], "hm_eq.function_pointer_call.1": ["eq_fn"],
     "hm_dk.function_pointer_call.1": ["dk"], "hm_dv.function_pointer_call.1": ["s_element_destroy"],
-    "s_element_destroy.function_pointer_call.1": ["dv"], "aws_linked_hash_table_put.function_pointer_call.1": ["dk"],
+    # every indirect call in the list code itself may reach either user destructor (same C type): which one is called where is
+    # decided by the destructor-count assertions of the harness, not by the call-site numbering
+    "s_element_destroy.function_pointer_call.*": ["dv", "dk"], "aws_linked_hash_table_put.function_pointer_call.*": ["dk", "dv"],
 }
 VT = {1: ("s_fifo_cache_put", "aws_cache_base_default_find"), 2: ("s_lifo_cache_put", "aws_cache_base_default_find"), 3: ("s_lru_cache_put", "s_lru_cache_find")}
 NAMES = {0: "linked hash table", 1: "FIFO cache", 2: "LIFO cache", 3: "LRU cache"}
